@@ -57,7 +57,8 @@ def requirements(tier):
             'events_checked': 600000 if q else 8000000,
             'purity_snapshots': 40000 if q else 500000,
             'sweetened_values': 4000 if q else 50000,
-            'extra_values': 2500 if q else 30000}
+            'extra_values': 2500 if q else 30000,
+            'stream_dumps': 20000 if q else 250000}
 
 
 class RefLoader12(yaml.SafeLoader):
@@ -259,6 +260,53 @@ def dumpable_model(spec):
     return all(c.get('registered', True) for c in spec['classes'])
 
 
+class _Sink:
+    """A caller-opened stream that is no io.IOBase."""
+
+    def __init__(self):
+        self.parts = []
+
+    def write(self, s):
+        self.parts.append(s)
+
+    def getvalue(self):
+        return ''.join(self.parts)
+
+
+def stream_dump(ctx, m, v, case, text, want):
+    """The statement is about every dump function: what dump_function
+    writes to an open stream is judged like the text dumps_function
+    returns (it must be that text; if not, the reading says how it
+    differs)."""
+    import io
+    try:
+        dump = m.dump_fn()
+    except Exception:
+        ctx.count('dump_function_creation_failed')
+        return
+    for sink in (io.StringIO(), _Sink()):
+        try:
+            dump(v, sink)
+        except Exception as e:
+            ctx.violation('C06 dump-to-stream-raised %s' % type(e).__name__,
+                          'dump(v, stream) raised %s: %s although dumps(v) '
+                          'returned %r' % (type(e).__name__, str(e)[:200],
+                                           text[:200]), case)
+            return
+        ctx.count('stream_dumps')
+        got = sink.getvalue()
+        if got == text:
+            continue
+        try:
+            kind = diff_kind(yaml.load(got, Loader=yaml.SafeLoader), want)
+        except Exception as e:
+            kind = 'unreadable-%s' % type(e).__name__
+        ctx.violation('C06 dump-to-stream-differs-from-dumps %s' % kind,
+                      'dump(v, stream) wrote %r, dumps(v) returned %r' % (
+                          got[:300], text[:300]), case)
+        return
+
+
 def run_value(ctx, spec, v, t=None):
     m = H.model_of(spec)
     case = {'spec': spec, 'value': V.encode_value(v)}
@@ -272,6 +320,8 @@ def run_value(ctx, spec, v, t=None):
         ctx.count('skipped_unreadable_strings')
         return
     text = check_dump(ctx, m, spec, v, dumps, case)
+    if text is not None and ctx.counters.get('dumps', 0) % 3 == 0:
+        stream_dump(ctx, m, v, case, text, D.proj(m, v))
     nontrivial = V.has_instance(v)
     if getattr(v, '_v_args', None) is not None:
         ctx.count('class_values')
